@@ -40,6 +40,8 @@ var executableLocations = []string{"QUERY", "MUTATION", "SUBSCRIPTION", "FIELD",
 // reasons whose denoted value needs escapes when written as a quoted string
 var reasonPool = []string{
 	"use other", "No longer supported", `say "hi"`, `back\slash`, "line one\nline two", "tab\there", "unicode é中 😀", "use `newField`", "{}[]():,#", "x",
+	// control characters that a quoted string can only carry as \uXXXX escapes (never spelled as block strings)
+	"bell \a end", "del \x7f end", "vt \v ff \f bs \b", "nul-free \x01\x1f",
 }
 
 var urlPool = []string{"https://example.com/%s", "https://example.com/%s?a=b&c=d", `https://example.com/%s#"frag"`, `https://example.com/%s\spec`}
